@@ -329,6 +329,9 @@ func attrsOf(f *File, what string, get func() ([]*core.Attribute, error)) (out [
 			errs = errStr(err)
 			return
 		}
+		// a caller that lists first and looks at values later: the same listing is asked for once more (and dropped) before
+		// anything of the first one is used
+		_, _ = get()
 		for _, a := range as {
 			if a == nil {
 				out = append(out, Attr{Name: "<nil attribute>"})
